@@ -510,7 +510,7 @@ func checkC03(an *Analysis, add func(Violation)) {
 		}
 		failed := c.Rec.Obs.Failed()
 		// broadcast path: datagrams that do not pass as S's are ignored and the call keeps waiting for S
-		if c.Route.Path == "broadcast" && failed && !an.foreignTraffic(c) {
+		if c.Route.Path == "broadcast" && failed && !an.foreignDeciding(c) {
 			if ok, a := an.mustSucceed(c, c.Client.Timeout); ok {
 				v("stopped-waiting", fmt.Sprintf("the reply of the addressed controller was due %v after the request, before the deadline, behind datagrams that must be ignored - but the call failed %v after the request: %s",
 					a.at, c.End.T-c.Sends[0].T, c.Rec.Obs.Err))
@@ -531,7 +531,11 @@ func checkC03(an *Analysis, add func(Violation)) {
 			v("rejected-good", fmt.Sprintf("a well-formed reply from the addressed controller was delivered but the call failed: %s", c.Rec.Obs.Err))
 		case !failed && !c.Rec.Obs.Nil && d != nil:
 			// success: the content must be the deciding datagram's; if it matches another delivered datagram instead, content leaked
-			if aspect, _ := exp.Check(c.Rec.Obs); aspect != "" {
+			if aspect, det := exp.Check(c.Rec.Obs); aspect != "" {
+				if exp.Fail == 1 && strings.HasPrefix(aspect, "field:") && strings.Contains(exp.Why, "ood:"+strings.TrimPrefix(aspect, "field:")) {
+					v("malformed-accepted", fmt.Sprintf("the accepted reply carries a malformed field and the call neither failed nor reported 'no value' for it: %s: %s\n  reply: %s", aspect, det, hexs(d.Data)))
+					continue
+				}
 				for i := range c.Reads {
 					o := &c.Reads[i]
 					if o == d || o.N != 64 || len(o.Data) != 64 {
